@@ -26,6 +26,12 @@ search: minimum eigenvalue of covariance matrices built with the real API on lat
   their combinations; the TPL classes are compared with the quadrature of their defining superposition over the
   rescaled truncation interval (independent oracle); every class must be invariant under (len_scale, rescale = s,
   lengths) -> (len_scale / s, rescale = 1, lengths / s) and every `X_rescaled` property must equal X / rescale.
+  rounding_scan: parameter values that are special only up to rounding — decimal grids of every optional argument (steps
+  0.05 / 0.1 / 0.5, every integer; for classes with two shape parameters every pair of multiples of 0.05), each nominal
+  value in all the binary forms decimal arithmetic produces for it (k * 0.05, k / 20, 1.2 / 0.2, running sums) and its
+  np.nextafter neighbours on both sides: finite, cor(0) = 1, |cor| <= 1 on lags from 1e-5 len_rescaled, eigenvalues on a
+  lattice plus a tight cluster (separations 1e-5 ... 1e-2 len_rescaled), sign of the shipped spectral density, and
+  continuity in the parameters (sets a few ulp apart give the same correlation to 1e-9).
 """
 import itertools
 import math
@@ -53,6 +59,9 @@ ASSUMPTIONS = [
     "TPL classes: the Lean model takes the values of the untruncated terms tplstable_cor(r, scale, H, alpha) as numbers; their identification"
     " with tplMode = 2H / scale^2H * int_0^scale lam^(2H-1) exp(-(r/lam)^alpha) dlam (the object of tplCor_eq_mixture) is not proved; it is"
     " explored by mix_scan (quadrature of the defining superposition, 2e-10) and by C03's closed-form comparison",
+    "rounding_scan: a documented approximation that replaces the closed form beyond a threshold (Matern: Gaussian limit for nu > 20) is a jump by design;"
+    " the admissible jump across it is bounded by 2e-2 (DOC_SWITCH); the parameter sweep sets the optional arguments of a few living objects in place"
+    " (construction costs 4 ms) and re-evaluates every failure on a freshly constructed model (a failure only the swept object shows is keyed after-history:*)",
     "in-place histories: the Lean state machine (hStep) carries the dimension, the dimension of the stored bounds and var / len_scale / nugget /"
     " optional arguments; rescale, anis, angles, integral_scale and set_arg_bounds histories are explored by the search only (history_scan:"
     " PSD scans + equality with a fresh model); for TPLGaussian / TPLExponential / TPLStable the reported var = var_raw * var_factor moves with"
@@ -1951,6 +1960,316 @@ def history_scan(ctx, deep, viol, stats):
     return ev
 
 
+# ---------------------------------------------------------------------------------------------------------------
+# parameter values that are special only up to rounding
+# ---------------------------------------------------------------------------------------------------------------
+# The shipped classes evaluate special functions through shortcuts that switch on near-integer / np.isclose tests of
+# quantities DERIVED from the shape parameters (tools/special.py: exp_int, inc_gamma, tplstable_cor; models.py: nu > 20,
+# ...).  Ordinary decimal parameter values put such quantities a few ulp beside the switch point, on either side.  The
+# scan below does not know the switch points: it walks decimal grids of every optional argument of every class, each
+# nominal value in all the binary forms ordinary decimal arithmetic produces for it (k * 0.05, k / 20, quotients such as
+# 1.2 / 0.2, np.nextafter neighbours), and requires what C02 states for EVERY accepted parameter set — finite values,
+# cor(0) = 1, |cor| <= 1 down to lags of 1e-5 len_rescaled, positive semi-definite matrices on a lattice plus a tight
+# cluster, non-negative shipped spectral density — and that parameter sets a few ulp apart describe the same model.
+#
+# A documented approximation that replaces the closed form beyond a threshold is a jump by design; its size is bounded
+# here by what the docstring promises ("If nu > 20, a gaussian model is used, since it represents the limiting case"):
+DOC_SWITCH = {("Matern", "nu"): (20.0, 2e-2, 1e-3)}      # (threshold, admissible jump of cor, relative jump of the spectral density)
+ROUND_H = np.concatenate([[0.0], 10.0 ** np.linspace(-5, 1.3, 43)])
+ROUND_K = 10.0 ** np.linspace(-2, 1.5, 12)
+
+
+def ulp_of(t):
+    return float(np.spacing(abs(t))) if t != 0 else 5e-324
+
+
+def decimal_forms(t):
+    """the doubles within 4 ulp of the decimal number t that ordinary arithmetic on decimal literals produces for it: products
+    k * 0.05 / k * 0.1, quotients k / 20, quotients and products of two decimals (1.2 / 0.2, 0.7 * 3), running sums, and the
+    np.nextafter neighbours on both sides; t itself first"""
+    out = [float(t)]
+    for step in (0.05, 0.1, 0.25):
+        k = round(t / step)
+        if abs(k * step - t) < 1e-9:
+            out += [k * step, k / round(1 / step), float(np.sum(np.full(min(k, 2000), step))) if 0 < k <= 2000 else t]
+    for b in (0.1, 0.2, 0.3, 0.4, 0.6, 0.7, 0.9, 1.1, 3.0, 7.0):
+        out += [round(t * b, 12) / b, (t / b) * b, round(t / b, 12) * b]
+    for k in (1, 2):
+        out += [nudge(t, k), nudge(t, -k)]
+    u = ulp_of(t)
+    forms = []
+    for v in out:
+        v = float(v)
+        if abs(v - t) <= 4 * u and v not in forms:
+            forms.append(v)
+    return forms
+
+
+def decimal_grid(lo, hi, iv):
+    """nominal decimal values of an argument with bounds [lo, hi] (interval type iv): multiples of 0.05 up to 2.5, of 0.1 up to 10,
+    of 0.5 and every integer beyond (hi capped at 60), the ends themselves where closed"""
+    hi_c = min(hi, 60.0)
+    vals = set()
+    for step, top in ((0.05, 2.5), (0.1, 10.0), (0.5, 60.0)):
+        k0, k1 = int(math.floor(lo / step)), int(math.ceil(min(hi_c, top) / step))
+        vals.update(round(k * step, 10) for k in range(k0, k1 + 1))
+    vals.update(float(k) for k in range(int(math.floor(lo)), int(math.ceil(hi_c)) + 1))
+    ok = lambda v: (lo < v or (iv[0] == "c" and v == lo)) and (v < hi or (iv[1] == "c" and v == hi))
+    return sorted(v for v in vals if ok(v))
+
+
+def in_bounds(v, b):
+    iv = b[2] if len(b) == 3 else "cc"
+    lo, hi = float(b[0]), float(b[1])
+    return (lo < v or (iv[0] == "c" and v == lo)) and (v < hi or (iv[1] == "c" and v == hi))
+
+
+def round_points(d, L):
+    """a lattice (spacing 0.35 L) plus a tight cluster with separations 1e-5 ... 1e-2 L, in units of the rescaled length"""
+    per = {1: 12, 2: 4, 3: 3}[d]
+    grid = np.array(list(itertools.product(range(per), repeat=d)), dtype=float).T * 0.35
+    c = np.full((d, 1), 0.61)
+    offs = [np.zeros(d)]
+    for j, sep in enumerate([1e-5, 3e-5, 1e-4, 1e-3, 1e-2, 3e-4]):
+        e = np.zeros(d)
+        e[j % d] = sep * (1 if j % 2 == 0 else -1)
+        offs.append(e if d == 1 or j < 3 else e + sep * 0.5)
+    return np.hstack([grid, c + np.array(offs).T]) * L
+
+
+def rounding_scan(ctx, deep, viol, stats):
+    g = gs()
+    ev = 0
+    full = deep or not ctx.quick
+    st = stats.setdefault("rounding", {})
+    cnt = lambda k, n=1: st.__setitem__(k, st.get(k, 0) + n)
+    seen_keys = {}
+
+    def match_known_key(key):
+        try:
+            from core import match_known
+            return bool(match_known("C02", key))
+        except Exception:
+            return False
+
+    def observe(m):
+        """correlation on the lag grid (units of the upper rescaled length), shipped spectral density or None, lags"""
+        L = m.len_rescaled if not (hasattr(m, "len_low") and m.len_low > 0) else (m.len_low + m.len_scale) / m.rescale
+        hh = ROUND_H * L
+        with warnings.catch_warnings(), np.errstate(all="ignore"):
+            warnings.simplefilter("ignore")
+            c = np.asarray(m.correlation(hh), float)
+            sd = None
+            if type(m).spectral_density is not g.CovModel.spectral_density:
+                try:
+                    sd = np.asarray(m.spectral_density(ROUND_K / L), float)
+                except Exception:
+                    sd = None
+        return hh, c, sd
+
+    def amp_of(m):
+        if hasattr(m, "len_low") and m.len_low > 0:
+            a_, b_ = ((m.len_low + m.len_scale) / m.rescale) ** (2 * m.hurst), (m.len_low / m.rescale) ** (2 * m.hurst)
+            return (a_ + b_) / (a_ - b_)
+        return 1.0
+
+    def fresh_of(cls, m):
+        return construct(cls, **state_kwargs(m))[0]
+
+    def report(cls, m, key, what, case, test):
+        """a failure seen on the living object is re-evaluated on a freshly constructed model with the same parameters: the same
+        failure there is a property of the parameter set, otherwise of the in-place history"""
+        base = key.split(":ulp-neighbour-of-")[0]
+        seen_keys[base] = seen_keys.get(base, 0) + 1
+        if seen_keys[base] > 2 and not match_known_key(key):
+            return          # two witnesses per kind of failure and class are enough for the report
+        fr = fresh_of(cls, m)
+        same = fr is not None and test(fr)
+        viol.append({"key": key if same else "after-history:" + key, "what": what + ("" if same else " (only on the object whose parameters were set in place;"
+                                                                                              " a freshly constructed model with the same parameters passes)"),
+                     "case": {**case, "kw": state_kwargs(m)}})
+
+    def eig_check(cls, m, case):
+        nonlocal ev
+        d = int(m.dim)
+        L = m.len_rescaled if not (hasattr(m, "len_low") and m.len_low > 0) else (m.len_low + m.len_scale) / m.rescale
+        pos = round_points(d, L)
+        if m.dim > 1:       # positions whose ISOMETRIZED coordinates are the point set (anisotropy / rotation undone)
+            from gstools.tools.geometric import matrix_isometrize
+            pos = np.linalg.solve(matrix_isometrize(d, m.angles, m.anis), pos)
+        with warnings.catch_warnings(), np.errstate(all="ignore"):
+            warnings.simplefilter("ignore")
+            C = cov_matrix_spatial(m, pos) - m.nugget * np.eye(pos.shape[1])
+        ev += 1
+        cnt("matrices")
+        if matrix_fails(m, C):
+            lam = min_eig(C) if np.all(np.isfinite(C)) else float("nan")
+            key, lam_thin = classify_failure(cls, d, m, spatial_lags(m, pos), C)
+
+            def test(fr):
+                with warnings.catch_warnings(), np.errstate(all="ignore"):
+                    warnings.simplefilter("ignore")
+                    return matrix_fails(fr, cov_matrix_spatial(fr, pos) - fr.nugget * np.eye(pos.shape[1]))
+            report(cls, m, key, f"covariance matrix (lattice + tight cluster, n={pos.shape[1]}, dim={d}) of an accepted model has min eigenvalue {lam:.3e}"
+                   + (f"; {lam_thin:.3e} after removing the points with lags inside the bands of the known findings N1-N3" if lam_thin is not None else ""),
+                   {**case, "min_eig": lam}, test)
+
+    def check_member(cls, m, case, ref, do_eig):
+        """property checks on one parameter set; ref = (correlation, spectral density, admissible jumps at a documented switch, key the nominal member
+        failed with or None) of the nominal member, None for the nominal member itself"""
+        nonlocal ev
+        hh, c, sd = observe(m)
+        ev += 1
+        cnt("parameter sets")
+        amp = amp_of(m)
+        # small-lag breakdown N1 / N2: looked for (small_lag_report, 99 extra lags) only when this grid shows its signature
+        i3 = int(np.searchsorted(ROUND_H, 1e-3))
+        low = c[1:i3 + 1]
+        sl = small_lag_report(m) if (np.isfinite(c[i3]) and c[i3] > 0.99 and (not np.all(np.isfinite(low)) or np.any(low < c[i3] - 1e-6))) else None
+        ok = np.ones(hh.shape, bool)
+        if sl is not None:      # N1 / N2 (reported by cor_scan under their own keys): lags inside the collapsed band are left out
+            ok = (hh == 0) | (hh > 1.25 * sl["lags_over_len_rescaled"][1] * m.len_rescaled)
+            cnt("parameter sets with the small-lag breakdown N1 / N2 (band left out)")
+        bad_key = None
+        if not np.all(np.isfinite(c[ok])):
+            i = int(np.argmax(ok & ~np.isfinite(c)))
+            bad_key = (f"correlation-non-finite:{cls}", f"correlation({float(hh[i])!r}) = {float(c[i])!r}", lambda fr: not np.all(np.isfinite(observe(fr)[1][ok])))
+        elif abs(c[0] - 1.0) > 1e-12:
+            bad_key = (f"correlation-at-zero:{cls}", f"correlation(0) = {float(c[0])!r} != 1", lambda fr: abs(observe(fr)[1][0] - 1.0) > 1e-12)
+        elif np.any(np.abs(c[ok]) > 1.0 + 1e-9):
+            i = int(np.argmax(np.where(ok, np.abs(c), 0)))
+            bad_key = (f"correlation-exceeds-one:{cls}" + (":beyond-snap-window" if cls in TPL_ALPHA else ""),
+                       f"|correlation({float(hh[i])!r})| = {float(abs(c[i]))!r} > 1 (lag = {hh[i] / m.len_rescaled:.3g} len_rescaled)",
+                       lambda fr: bool(np.any(np.abs(observe(fr)[1][ok]) > 1.0 + 1e-9)))
+        elif sd is not None and np.any(np.isfinite(sd)) and np.nanmin(sd) < -1e-10 * np.nanmax(np.abs(sd)):
+            bad_key = (f"negative-spectral-density:{cls}", f"shipped spectral_density is negative ({np.nanmin(sd):.3e})",
+                       lambda fr: np.nanmin(observe(fr)[2]) < -1e-10 * np.nanmax(np.abs(observe(fr)[2])))
+        if bad_key is not None:
+            key = bad_key[0]
+            if ref is not None and case.get("member", 0) > 0 and ref[4] is None:
+                # the nominal value itself passes: the failure belongs to the values a few ulp beside it (own key per nominal value)
+                arg = [a for a in case["nominal"] if case["values"][a] != case["nominal"][a]][0]
+                key += f":ulp-neighbour-of-{arg}={case['nominal'][arg]:g}"
+            report(cls, m, key, bad_key[1] + " for a parameter set inside the bounds", case, bad_key[2])
+            do_eig = True
+        elif ref is not None:
+            c0, sd0, jump, jump_sd = ref[:4]
+            both = ok & np.isfinite(c0)
+            dc = np.abs(c - c0)
+            if np.any(dc[both] > 1e-9 * amp + jump):
+                i = int(np.argmax(np.where(both, dc, 0)))
+                kw_now = state_kwargs(m)
+
+                def test(fr, c0=c0, both=both, tol=1e-9 * amp + jump):
+                    return bool(np.any(np.abs(observe(fr)[1] - c0)[both] > tol))
+                report(cls, m, f"shape-discontinuity:{cls}", f"correlation({float(hh[i])!r}) = {float(c[i])!r}, but {float(c0[i])!r} for the neighbouring parameter values {case.get('nominal')} "
+                       f"(the two parameter sets differ by a few ulp)", case, test)
+                do_eig = True
+            elif sd is not None and sd0 is not None:
+                # a jump of the shipped spectral density between parameter sets a few ulp apart is not a statement of C02 (sign only);
+                # it is recorded for C04 in the evidence
+                fin = np.isfinite(sd) & np.isfinite(sd0)
+                if np.any(np.abs(sd - sd0)[fin] > (1e-8 * amp + jump_sd) * np.max(np.abs(sd0[fin]), initial=0.0)):
+                    notes = st.setdefault("spectral density jumps between parameter sets a few ulp apart (C04, not a C02 statement)", [])
+                    if len(notes) < 5:
+                        i = int(np.argmax(np.where(fin, np.abs(sd - sd0), 0)))
+                        notes.append({"cls": cls, "nominal": case.get("nominal"), "values": case.get("values"), "k": float(ROUND_K[i] / m.len_rescaled),
+                                      "spectral_density": float(sd[i]), "at_nominal": float(sd0[i])})
+        if do_eig:
+            eig_check(cls, m, case)
+        return c, sd, (bad_key[0] if bad_key is not None else None)
+
+    for ic, cls in enumerate(CLASSES):
+        if deep and _FOCUS and cls not in _FOCUS:
+            continue
+        okd, _ = valid_dims(cls, "plain")
+        okd = [d for d in okd if d <= 3]
+        with warnings.catch_warnings():
+            warnings.simplefilter("ignore")
+            m0 = getattr(g, cls)(dim=okd[0])
+        shape_args = [a for a in m0.opt_arg if a not in rescalable_opt_args(cls)]
+        if not shape_args:
+            continue
+        # living models: (dim, rescale, rescalable length factor); the groups walk through them
+        cfgs = [(okd[0], None, 0.0), (okd[-1], 2.0, 0.3), (okd[len(okd) // 2], 0.4, 0.0)]
+        if full:
+            cfgs += [(okd[-1], 3.7, 1.0), (okd[0], 0.13, 5.0)]
+        models = []
+        for d, resc, lowf in cfgs:
+            kw = dict(dim=d, len_scale=1.7, var=1.3)
+            if resc is not None:
+                kw["rescale"] = resc
+            if lowf > 0:
+                kw.update({a: lowf * 1.7 for a in rescalable_opt_args(cls)})
+            if d > 1:
+                kw["anis"] = [0.7, 1.6][:d - 1]
+                kw["angles"] = [0.4, -0.3, 1.1][:d * (d - 1) // 2]
+            with warnings.catch_warnings():
+                warnings.simplefilter("ignore")
+                models.append(getattr(g, cls)(**kw))
+        # nominal groups: one argument on its decimal grid (the others at their defaults) ...
+        groups = []
+        for a in shape_args:
+            for im, m in enumerate(models):
+                b = m.opt_arg_bounds[a]
+                iv = b[2] if len(b) == 3 else "cc"
+                grid = decimal_grid(float(b[0]), float(b[1]), iv)
+                for j, v in enumerate(grid):
+                    nice = abs(v * 2 - round(v * 2)) < 1e-9
+                    # quick tier: the multiples of 1/2 on every model in turn, a rotating third of the other decimals
+                    if not full and (j + ic + ctx.seed) % len(models) != im:
+                        continue        # thorough tier: every value on every living model
+                    if not full and not nice and (j // len(models) + ctx.seed) % 3 != 0:
+                        continue
+                    groups.append((im, {a: v}))
+        # ... and every pair of decimal values of two arguments (classes with two shape parameters)
+        if len(shape_args) >= 2:
+            for a1, a2 in itertools.combinations(shape_args, 2):
+                b1, b2 = models[0].opt_arg_bounds[a1], models[0].opt_arg_bounds[a2]
+                g1 = [v for v in decimal_grid(float(b1[0]), float(b1[1]), b1[2] if len(b1) == 3 else "cc") if abs(v * 20 - round(v * 20)) < 1e-9 and v <= 2.5]
+                g2 = [v for v in decimal_grid(float(b2[0]), float(b2[1]), b2[2] if len(b2) == 3 else "cc") if abs(v * 20 - round(v * 20)) < 1e-9 and v <= 2.5]
+                for j, (v1, v2) in enumerate(itertools.product(g1, g2)):
+                    groups.append(((j + ctx.seed) % len(models), {a1: v1, a2: v2}))
+                    if full:
+                        groups.append(((j + ctx.seed + 2) % len(models), {a1: v1, a2: v2}))
+        for ig, (im, nominal) in enumerate(groups):
+            m = models[im]
+            names = list(nominal)
+            # members: the nominal set first, then every decimal form / ulp neighbour of one argument at a time
+            members = [dict(nominal)]
+            for a in names:
+                forms = decimal_forms(nominal[a])[1:]
+                if len(names) > 1 and not full:
+                    forms = forms[:2] + [nudge(nominal[a], 1), nudge(nominal[a], -1)]
+                for v in forms:
+                    mem = {**nominal, a: v}
+                    if in_bounds(v, m.opt_arg_bounds[a]) and mem not in members:
+                        members.append(mem)
+            sw = [DOC_SWITCH[(cls, a)] for a in names if (cls, a) in DOC_SWITCH and abs(nominal[a] - DOC_SWITCH[(cls, a)][0]) <= 4 * ulp_of(nominal[a])]
+            jump, jump_sd = (max(x[1] for x in sw), max(x[2] for x in sw)) if sw else (0.0, 0.0)
+            ref = None
+            do_eig = full or (ig + ctx.seed) % 4 == 0
+            cnt("groups (nominal decimal parameter sets)")
+            for k, mem in enumerate(members):
+                case = {"cls": cls, "nominal": nominal, "values": mem, "member": k}
+                failed = None
+                for a, v in mem.items():
+                    r_, _ = apply_set(m, a, v)
+                    if r_ != "ok":
+                        failed = (a, v, r_)
+                if failed is not None:
+                    viol.append({"key": f"edge-parameter-rejected:{cls}", "what": f"model.{failed[0]} = {failed[1]!r} inside the bounds is rejected: {failed[2]}", "case": case})
+                    continue
+                c, sd, failed_key = check_member(cls, m, case, ref, do_eig and k == 0)
+                if k == 0:
+                    ref = (c, sd, jump, jump_sd, failed_key)
+                    cnt("groups at a documented approximate switch", int(bool(sw)))
+            # leave the object on the nominal values of its defaults for the next group
+            for a in names:
+                apply_set(m, a, float(getattr(m0, a)))
+    return ev
+
+
 def directed(ctx, viol):
     """corpus of past findings, replayed first on every run (fixed inputs, no randomness)"""
     g = gs()
@@ -1990,6 +2309,15 @@ def directed(ctx, viol):
                 viol.append({"key": f"small-lag-breakdown:{cls}",
                              "what": f"{cls}({kw}).correlation({lags}) = {c.tolist()}; covariance matrix of (0,0),({lags[0]},0),(0.3,0) = {C.tolist()}",
                              "case": {"cls": cls, "kw": kw, "lags": lags, "correlation": c.tolist()}})
+        # N7: shipped spectral density of TPLExponential for hurst a few ulp beside 1/2 (scipy hyp2f1 with c - a - b within ulps of 0)
+        for dim_, hurst_, k_ in ((1, 0.49999999999999983, 22.2), (3, 0.5000000000000002, 22.2)):
+            m = g.TPLExponential(dim=dim_, hurst=hurst_, len_scale=1.0)
+            sd_, sd0_ = float(m.spectral_density(np.array([k_]))[0]), float(g.TPLExponential(dim=dim_, hurst=0.5, len_scale=1.0).spectral_density(np.array([k_]))[0])
+            ev += 1
+            if sd_ < 0 <= sd0_:
+                viol.append({"key": "negative-spectral-density:TPLExponential:ulp-neighbour-of-hurst=0.5",
+                             "what": f"TPLExponential(dim={dim_}, hurst={hurst_!r}).spectral_density({k_}) = {sd_!r} < 0; with hurst = 0.5 it is {sd0_!r}",
+                             "case": {"cls": "TPLExponential", "kw": {"dim": dim_, "hurst": hurst_, "len_scale": 1.0}, "k": k_, "spectral_density": sd_, "at_hurst_0.5": sd0_}})
         # N3: TPL models with a lower cut-off exceed 1 between the two isclose windows
         for cls, kw, lags in (("TPLGaussian", dict(dim=1, hurst=0.15, len_low=0.1, len_scale=0.4), [2e-9, 4e-9]),
                               ("TPLExponential", dict(dim=1, hurst=0.15, len_low=0.1, len_scale=0.4), [2e-9, 4e-9]),
@@ -2023,6 +2351,7 @@ def search(ctx, deep=False):
     e6 = _safe("rescale_scan", viol, rescale_scan, ctx, deep, viol)
     e2 = _safe("cor_scan", viol, cor_scan, ctx, deep, viol)
     e7 = _safe("history_scan", viol, history_scan, ctx, deep, viol, stats)
+    e8 = _safe("rounding_scan", viol, rounding_scan, ctx, deep, viol, stats)
     e1 = _safe("eig_scan", viol, eig_scan, ctx, deep, viol, stats)
     e3 = _safe("spectrum_scan", viol, spectrum_scan, ctx, deep, viol)
     # one violation per key
@@ -2036,7 +2365,7 @@ def search(ctx, deep=False):
         out.sort(key=lambda v: bool(match_known("C02", v["key"])))
     except Exception:
         pass
-    return {"evaluations": e1 + e2 + e3 + e4 + e5 + e6 + e7, "violations": out[:12],
+    return {"evaluations": e1 + e2 + e3 + e4 + e5 + e6 + e7 + e8, "violations": out[:12],
             "summary": f"{e1} covariance matrices (lattice / clusters / random / sphere; plain, anisotropic-rotated, temporal, lat-lon via isometrize and via cov_yadrenko)"
                        f" at the edges of every bound: min eigenvalue >= -1e-8 n var; {e2} correlation grids (cor(0)=1, |cor|<=1); {e3} radial-Fourier-transform sign"
                        f" evaluations (quadrature for compact supports, shipped spectral densities); {e4} matrices on stale-dimension histories (D8);"
@@ -2044,6 +2373,9 @@ def search(ctx, deep=False):
                        f" (len_scale, rescale=s, lengths) vs (len_scale/s, 1, lengths/s) and X_rescaled = X / rescale; {e7} correlation grids / covariance matrices of"
                        f" models that went through in-place histories (evaluate, then dim up / down, optional arguments to both edges, len_scale / rescale / var /"
                        f" nugget / anis / angles, compound; plain, space-time, lat-lon): same PSD scans + equality with a freshly constructed model of the same"
-                       f" state; histories: {stats.get('histories', {})}.  Every scan walks through all"
+                       f" state; histories: {stats.get('histories', {})}; {e8} parameter sets / matrices on decimal grids of every optional argument in all"
+                       f" binary forms of each decimal value and its nextafter neighbours (values special only up to rounding: finite, cor(0)=1, |cor|<=1 from"
+                       f" 1e-5 len_rescaled, eigenvalues on lattice + tight cluster, spectral density sign, continuity across a few ulp): {stats.get('rounding', {})}."
+                       f"  Every scan walks through all"
                        f" combinations of rescale {RESCALES} (None = default) and rescalable optional lengths {LOW_FACTORS} x len_scale."
                        f" worst min-eig/(n var) per class: {stats.get('worst_relative_min_eig', {})}"}
